@@ -35,7 +35,9 @@ func RunInit(args []string, opts GlobalOptions) error {
 	if err := os.MkdirAll(target, 0755); err != nil {
 		return err
 	}
-	plansPath := filepath.Join(target, plansFileName)
+	// An existing log (including a legacy events.jsonl) is kept as is: creating an
+	// empty plans.jsonl next to it would shadow it.
+	plansPath := getEventsPath(target)
 	lockPath := filepath.Join(target, "lock")
 	if err := ensureFileExists(plansPath, 0644); err != nil {
 		return err
